@@ -40,5 +40,9 @@ meta={"property":P,"variant":K,"breaks":P,"needs_to_manifest":notes.strip(),
       "confirmed":{"demo_exit_without_change":int(D0),"demo_exit_with_change":int(D1),"test_suite_with_change":T,
                    "how":"scratch worktree under /tmp: demo on clean tree, git apply patch.diff, demo, full pytest suite; quick checks run on a second scratch worktree with the patch applied (tools/canary.sh: VERIF_REPO, VERIF_OUT)"},
       "checks_with_change":OUT.strip()}
+if os.path.exists(d+"/meta.json"):
+    old=json.load(open(d+"/meta.json"))
+    if T=="skipped": meta["confirmed"]["test_suite_with_change"]=old.get("confirmed",{}).get("test_suite_with_change",T)
+    meta["checks_when_first_tried"]=old.get("checks_when_first_tried",old.get("checks_with_change",""))
 json.dump(meta,open(d+"/meta.json","w"),indent=1)
 PY
